@@ -220,6 +220,18 @@ def apply_ops(rec, hist, soft=False):
     nontrivial = False
     for i, op in enumerate(hist["ops"]):
         sub = dict(hist, ops=hist["ops"][: i + 1])
+        if op[0] == "narrow":
+            # derive a child whose window is a narrow band around the parent's default (everything else, vary_rounds included, inherited)
+            _, pi, a, b, vary = op
+            d = nodes[pi % len(nodes)][1]["default"]
+            if d is None or "rounds" not in h.setting_kwds:
+                continue
+            if getattr(h, "rounds_cost", "") == "log2":
+                a, b = a % 2, b % 2
+            kw = {"min_rounds": max(h.min_rounds, d - a), "max_rounds": min(d + b, h.max_rounds or 10**9)}
+            if vary is not None:
+                kw["vary_rounds"] = vary
+            op = ["derive", pi, kw]
         if op[0] == "derive":
             _, pi, kw = op
             pi %= len(nodes)
@@ -323,7 +335,7 @@ def kw_strategy(name, first):
         parts["default_rounds"] = sval
         parts["min_desired_rounds"] = sval
         parts["max_desired_rounds"] = sval
-        parts["vary_rounds"] = st.sampled_from([0, 1, 3, "10%", 0.2, "1", -1, 1.5, "0.1"])
+        parts["vary_rounds"] = st.sampled_from([0, 1, 3, "10%", 0.2, "30%", 0.5, "1", -1, 1.5, "0.1"])
     if "salt_size" in h.setting_kwds:
         lo, hi = h.min_salt_size, h.max_salt_size
         top = hi if hi is not None else 40
@@ -395,6 +407,11 @@ def make_machine(rec, name):
             nd = sum(1 for o in self.hist["ops"] if o[0] == "derive")
             kw = data.draw(first_kw if nd == 0 else later_kw)
             self._step(["derive", pi if nd else 0, kw])
+
+        @rule(pi=st.integers(0, 5), a=st.integers(0, 60), b=st.integers(0, 60), vary=st.sampled_from([None, None, None, "30%", 0.2, 7]))
+        def narrow(self, pi, a, b, vary):
+            if any(o[0] == "derive" for o in self.hist["ops"]):
+                self._step(["narrow", pi, a, b, vary])
 
         @rule(ni=st.integers(0, 5), r=st.integers(0, 3000))
         def needs_update(self, ni, r):
